@@ -24,7 +24,10 @@ use crate::{
         functions::{
             format_anonymous_function, format_call, format_function_call, FunctionCallNextNode,
         },
-        general::{format_contained_span, format_end_token, format_token_reference, EndTokenType},
+        general::{
+            format_contained_span, format_end_token, format_token, format_token_reference,
+            EndTokenType, FormatTokenType,
+        },
         table::format_table_constructor,
         trivia::{
             strip_leading_trivia, strip_trivia, FormatTriviaType, UpdateLeadingTrivia,
@@ -189,13 +192,15 @@ fn removed_parentheses_comments(
     shape: Shape,
 ) -> (Vec<Token>, Vec<Token>) {
     let (start_parens, end_parens) = contained.tokens();
+    // The comments themselves are formatted (trailing whitespace, line endings) like any other comment
     let leading_comments = start_parens
         .leading_trivia()
         .filter(|token| trivia_util::trivia_is_comment(token))
         .flat_map(|x| {
+            let (comment, _, _) = format_token(ctx, x, FormatTokenType::LeadingTrivia, shape);
             vec![
                 create_indent_trivia(ctx, shape),
-                x.to_owned(),
+                comment,
                 create_newline_trivia(ctx),
             ]
         })
@@ -206,7 +211,8 @@ fn removed_parentheses_comments(
         .filter(|token| trivia_util::trivia_is_comment(token))
         .flat_map(|x| {
             // Prepend a single space beforehand
-            vec![Token::new(TokenType::spaces(1)), x.to_owned()]
+            let (comment, _, _) = format_token(ctx, x, FormatTokenType::TrailingTrivia, shape);
+            vec![Token::new(TokenType::spaces(1)), comment]
         })
         .collect();
 
